@@ -13,6 +13,7 @@ def run(ctx):
     jobs = [(ctx.seed * 7000003 + i, dict(gen=dict(hostile=True, shared=0.4))) for i in range(n)]
     jobs += [(ctx.seed * 7000003 + i, dict(gen=dict(hostile=True, shared=0.4), locale_c=True)) for i in range(n_c)]      # same layouts under LC_ALL=C, UTF-8 mode off
     results = drive.pmap(c03.run_layout, jobs, hooks=False, chunksize=5)
+    results += drive.pmap(c03.run_legacy, [(ctx.seed * 37 + i, dict(hostile=True)) for i in range(ctx.pick(90, 3000))], hooks=False, chunksize=10)      # legacy engine (v1rewrite)
     events, fails = c03.validate(ctx, results, "C04")
     ctx.count("layouts_utf8", n)
     ctx.count("layouts_c_locale", n_c)
